@@ -555,6 +555,24 @@ def r14_gauges_released_on_every_exit(ctx):
     ctx.ob("R20.14", "crate:in-progress-counters", True, "", "%d decrement sites of in-progress counters and %d raise/lower flag pairs examined" % (n, m), nontrivial=False)
 
 
+def r15_map_index(ctx, reach):
+    """`map[key]` panics on a missing key: on input-reachable code the key comes from input (a packet number below `stop` for
+    which the scheme has no line), so maps are read with get()"""
+    n = 0
+    for key in sorted(reach):
+        body = ctx.P.bodies[key]
+        if key in ctx.P.inlined_away or key.startswith(("util::cert", "util::tls", "anytls_")):
+            continue
+        for c in body.calls():
+            cal = c.callee or ""
+            if cal.endswith(("::index", "::index_mut")) and any(x in cal for x in ("HashMap", "BTreeMap", "StringMap", "IndexMap")):
+                n += 1
+                ctx.ob("R20.15", "%s|map-index#%d" % (ctx.P.owner(key), n), False, c.site,
+                       "a map is read with the `[]` operator on input-reachable code: a key that is not present (a scheme without a line for this packet number, an unknown stream id) panics the task instead of "
+                       "taking the 'absent' path")
+    ctx.ob("R20.15", "input-reachable-set:maps-are-read-with-get", n == 0, "", "no `map[key]` on input-reachable code" if n == 0 else "%d panicking map reads" % n, nontrivial=False)
+
+
 def r8_inventory(ctx, reach):
     total = 0
     kinds = {}
@@ -593,5 +611,6 @@ def run(ctx):
     r11_counted_loops(ctx, reach)
     r12_subtractions(ctx, reach)
     r13_slice_indices(ctx, reach)
+    r15_map_index(ctx, reach)
     r14_gauges_released_on_every_exit(ctx)
     r8_inventory(ctx, reach)
